@@ -99,6 +99,7 @@ pub assume_specification<T: PartialEq>[ <[T]>::contains ](s: &[T], x: &T) -> (b:
 impl Formula {
 //@fn src/syntax_tree/fol/sigma_0.rs :: impl Formula :: fn substitute
 //@ .ret r
+//@ .attr #[verifier::loop_isolation(false)]
 //@ .fresh_search
 //@ .spec
 //@     requires sort_ok(var, term),
@@ -135,8 +136,6 @@ impl Formula {
 //@         quantification.quantifier == qq,
 //@         it.seq() == xs,
 //@         !bound_by(xs, vkey(var)),
-//@         term_variables@ == spec_vars_gen(term),
-//@         formula_variables@ == spec_fv(f0),
 //@         loop_inv(qq, xs, f0, var, term, it.index@ as int, variables@, formula),
 //@ .hint before "if term_variables.contains(&variable)"
 //@     let ghost i = it.index@ as int;
